@@ -684,11 +684,13 @@ PROPS = {
     "C01": Prop("C01",
                 S(["tokens"], "li,loc,ext") + S(["wf", "near", "raw"], "li,loc,ext,lican,loccan,listr,locstr,conv,idem,liparts,locparts")
                 + S(["subtag"], "lang,script,region,variant") + [("hist", None), ("parts", None), ("match", None)]
-                + S(["triples"], "max,min,dir,limax,limin"),
+                + S(["triples"], "max,min,dir,limax,limin") + [("glue_li", None), ("glue_misc", None)],
                 None, proj_outcome, orc_c01, design_ref="4/C01"),
-    "C02": Prop("C02", S(["tokens", "wf", "near", "raw"], "li,lican,listr"), {"li", "lican", "listr"}, proj_c02, orc_c02,
+    "C02": Prop("C02", S(["tokens", "wf", "near", "raw"], "li,lican,listr") + [("glue_li", None)],
+                {"li", "lican", "listr", "liiter", "liiterp"}, proj_c02, orc_c02,
                 design_ref="4/C02"),
-    "C03": Prop("C03", S(["tokens", "wf", "near", "raw"], "loc,locstr,ext"), {"loc", "locstr", "ext"}, proj_c03, orc_c03,
+    "C03": Prop("C03", S(["tokens", "wf", "near", "raw"], "loc,locstr,ext") + [("glue_misc", None)],
+                {"loc", "locstr", "ext", "exttype"}, proj_c03, orc_c03,
                 design_ref="4/C03"),
     "C04": Prop("C04", S(["wf", "near"], "li,lican,loc,loccan") + S(["tokens"], "loc,loccan") + [("hist", None), ("parts", None)],
                 {"li", "lican", "loc", "loccan", "hist", "fromparts"}, proj_str_only, orc_c04, design_ref="4/C04"),
@@ -719,10 +721,11 @@ PROPS = {
                 thorough_configs=[("none", ()), ("likely", ("likely",)), ("serde", ("serde",)), ("macros", ("macros",)),
                                   ("likely-serde", ("likely", "serde")), ("likely-macros", ("likely", "macros")),
                                   ("macros-serde", ("macros", "serde")), ("all", ALL_FEATURES)]),
-    "C15": Prop("C15", S(["subtag"], "lang,script,region,variant,langstr") + [("langmisc", None)],
-                {"lang", "script", "region", "variant", "langstr", "langopt", "langdefault"}, proj_c15, orc_c15,
+    "C15": Prop("C15", S(["subtag"], "lang,script,region,variant,langstr") + [("langmisc", None), ("glue_misc", None)],
+                {"lang", "script", "region", "variant", "langstr", "langopt", "langdefault", "rawref"}, proj_c15, orc_c15,
                 design_ref="4/C15"),
-    "C17": Prop("C17", [("parts", None)], {"liparts", "locparts", "fromparts", "raw"}, proj_full, orc_c17, design_ref="4/C17"),
+    "C17": Prop("C17", [("parts", None), ("glue_misc", None)], {"liparts", "locparts", "fromparts", "raw", "rawref"}, proj_full, orc_c17,
+                design_ref="4/C17"),
 }
 
 
@@ -770,6 +773,31 @@ def extra_stream(name, tier, seed):
         return lines
     if name == "tablemisc":
         return ["cldrversion"]
+    if name == "glue_li":
+        # the iterator-level entry points on arbitrary subtag lists (also the empty list and subtags containing separators)
+        import itertools
+        alpha = [b"", b"en", b"EN", b"und", b"Latn", b"US", b"419", b"macos", b"1996", b"u", b"x", b"a-b", b"en_US", b"abcd",
+                 b"abcdefghi", b"e"]
+        lines = []
+        for n in range(0, 4):
+            for toks in itertools.product(alpha, repeat=n):
+                l = ",".join(R.hexs(t) for t in toks) if toks else "[]"
+                for op in ("liiter", "liiterp"):
+                    for fl in "01":
+                        lines.append("%s %s %s" % (op, fl, l))
+        return lines
+    if name == "glue_misc":
+        lines = ["errdisp"] + ["exttype %d" % i for i in range(256)]
+        words = [b"en", b"EN", b"und", b"Und", b"fil", b"abcde", b"abcdefgh", b"abcd", b"e", b"", b"Latn", b"lATN", b"latn1", b"US",
+                 b"us", b"419", b"41", b"4190", b"macos", b"MacOS", b"1996", b"1abc", b"abcdefghi", b"a.cde", b"valencia",
+                 b"\xc3\xa9cole", b"12345678"]
+        for kind in ("lang", "script", "region"):
+            for w in words:
+                lines.append("rawref %s %s" % (kind, R.hexs(w)))
+        for w in words:
+            for o in (w, w.lower(), w.upper(), b"other", b""):
+                lines.append("rawref variant %s %s" % (R.hexs(w), R.hexs(o)))
+        return lines
     raise KeyError(name)
 
 
